@@ -184,22 +184,24 @@ theorem zero_batch_stuck (s : Plan) (hb : s.batch = 0) (hg : s.gvcfs ≠ []) : s
   simp only [hf, Bool.false_eq_true, if_false, hne, if_true]
   exact stepGvcfs_zero_batch flog s hb hg
 
-/-! #### the public `gvcf_batch_size` setter (OPEN FINDING on the unchanged tree)
+/-! #### the public `gvcf_batch_size` setter -/
 
-Wanted: `setter_keeps_guard : 1 ≤ v → 1 ≤ clampBatch nIv v` for every number of import intervals — the setter must
-not break the guard `gvcf_batch_size ≥ 1` the constructor enforces. It is **false**: above 150 000 import intervals
-(`import_interval_size` below ≈ 20 kb on a human genome) `150000 // len(intervals)` is 0; a combiner whose batch size
-is then set through the property makes no progress (`zero_batch_stuck`). Witness and the part that holds: -/
-example : clampBatch 150001 1 = 0 := by decide
-example : ¬ (∀ nIv v, 1 ≤ v → 1 ≤ clampBatch nIv v) := fun h => absurd (h 150001 1 (Nat.le_refl 1)) (by decide)
-
-/-- `setter_keeps_guard`, the part that holds: up to 150 000 import intervals the setter keeps the batch size ≥ 1, so
-`WF` — and with it every theorem of this file — survives a `combiner.gvcf_batch_size = v` between steps (the setter
-touches nothing else: inputs, datasets and measure are unchanged). -/
-theorem setter_keeps_guard_partial (nIv v : Nat) (s : Plan) (h : WF s) (hn : nIv ≤ 150000) (hv : 1 ≤ v) :
-    WF (setBatch nIv v s) ∧ allLeaves (setBatch nIv v s) = allLeaves s ∧
+/-- **The setter keeps the constructor's guard**, for every number of import intervals: a requested batch size `≥ 1`
+stays `≥ 1` (and is never raised), so `WF` — and with it every theorem of this file — survives a
+`combiner.gvcf_batch_size = v` between steps; the setter touches nothing else (inputs, datasets, measure unchanged). -/
+theorem setter_keeps_guard (nIv v : Nat) (s : Plan) (h : WF s) (hv : 1 ≤ v) :
+    WF (setBatch nIv v s) ∧ (setBatch nIv v s).batch ≤ v ∧ allLeaves (setBatch nIv v s) = allLeaves s ∧
       planMeasure (setBatch nIv v s) = planMeasure s ∧ (setBatch nIv v s).finals = s.finals :=
-  ⟨⟨h.1, clampBatch_pos hn hv⟩, rfl, rfl, rfl⟩
+  ⟨⟨h.1, clampBatch_pos hv⟩, clampBatch_le hv, rfl, rfl, rfl⟩
+
+/-- The setter before the repair (79521ff4e) kept the guard only up to 150 000 import intervals … -/
+theorem setter_keeps_guard_old (nIv v : Nat) (hn : nIv ≤ 150000) (hv : 1 ≤ v) : 1 ≤ clampBatchOld nIv v :=
+  clampBatchOld_pos hn hv
+
+-- … and broke it above: `150000 // 150001 = 0`, after which `zero_batch_stuck` applies (the repaired defect)
+example : clampBatchOld 150001 1 = 0 := by decide
+example : ¬ (∀ nIv v, 1 ≤ v → 1 ≤ clampBatchOld nIv v) := fun h => absurd (h 150001 1 (Nat.le_refl 1)) (by decide)
+example : clampBatch 150001 1 = 1 ∧ clampBatch 147075 20 = 1 ∧ clampBatch 50001 3 = 2 ∧ clampBatch 1000 20 = 20 := by decide
 
 /-- **Termination with arbitrary stop/resume points.** From any plan the constructor can produce (or any state
 reached later), running `n ≥ 2·#gvcfs + #datasets` steps — saving and reloading before any subset of them — reaches a
@@ -272,5 +274,47 @@ theorem one_dataset_from_all_inputs (resume : Nat → Bool) (gvcfs : List Nat) (
     show (runWith flog resume n 0 s0).finals = []
     rw [runWith_of_finished flog resume n 0 s0 hf0]
     subst hs0; rfl
+
+/-! ### failures inside steps -/
+
+/-- **A step is atomic with respect to the saved plan.** Whatever happens inside `step()`, the plan at `save_path` is
+the one saved just before that step: after a completed step it is the pre-step plan (the next iteration saves again),
+after a failed step it is *still* the pre-step plan and the restarted combiner is `load` of exactly that. -/
+theorem step_atomic_wrt_saved_plan (o : Outcome) (r : RunSt) :
+    (iter flog o r).saved = r.mem ∧ (o = .fault → (iter flog o r).mem = reload flog r.mem) ∧
+      (o = .done → (iter flog o r).mem = step flog r.mem) := by
+  cases o <;> simp [iter]
+
+/-- **Interrupted runs still merge every input exactly once.** For every history of loop iterations — any number of
+failures inside steps, each followed by a restart from the saved plan — that contains at least
+`2·#gvcfs + #input datasets` completed steps: the plan is finished and exactly one dataset has been written, built from
+exactly the given inputs with all their samples. (A failed step is assumed to have had no effect the saved plan can
+see: what it wrote goes to fresh temporary paths that no plan references.) -/
+theorem interrupted_runs_complete (os : List Outcome) (gvcfs : List Nat) (names : Option (List Nat))
+    (vdsIn : List (Nat × Nat)) (bf batch : Nat) (s0 : Plan)
+    (h0 : mkPlan flog gvcfs names (vdsIn.map fun p => ⟨[p.1], p.2⟩) bf batch = some s0)
+    (hn : 2 * gvcfs.length + vdsIn.length ≤ (os.filter (· = Outcome.done)).length)
+    (hne : gvcfs ++ vdsIn.map (·.1) ≠ []) :
+    let s := (runFaulty flog os ⟨s0, s0⟩).mem
+    s.gvcfs = [] ∧ s.vdses = [] ∧
+      ∃ d, s.finals = [d] ∧ d.leaves.Perm (gvcfs ++ vdsIn.map (·.1)) ∧ d.n = gvcfs.length + (vdsIn.map (·.2)).sum := by
+  intro s
+  obtain ⟨hbf, hbatch, hs0⟩ := mkPlan_some h0
+  have hw : WF s0 := by subst hs0; exact ⟨hbf, hbatch⟩
+  have hfin : FinalsOK s0 := by subst hs0; exact Or.inl rfl
+  have hleaves : allLeaves s0 = gvcfs ++ vdsIn.map (·.1) := by
+    subst hs0
+    simp only [allLeaves, List.flatMap_nil, List.append_nil]
+    rw [List.flatMap_map]
+    exact congrArg (gvcfs ++ ·) (leaves_of_inputs vdsIn)
+  have htot : totalN s0 = gvcfs.length + (vdsIn.map (·.2)).sum := by
+    subst hs0
+    simp only [totalN, List.map_nil, List.sum_nil, Nat.add_zero]
+    rw [List.map_map]
+    exact congrArg (gvcfs.length + ·) (n_of_inputs vdsIn)
+  have hmeas : planMeasure s0 ≤ (os.filter (· = Outcome.done)).length := by
+    subst hs0; simp only [planMeasure, List.length_map]; exact hn
+  obtain ⟨_, f2, l2, t2, fin2⟩ := runFaulty_props flog os ⟨s0, s0⟩ hw hfin
+  exact finished_result f2 (fin2 (Or.inl hmeas)) (hleaves ▸ l2) (htot ▸ t2) hne
 
 end HailVerif.C38
